@@ -436,6 +436,18 @@ def run_special(tier, r):
         ("peek-bad-string", C.Struct("p" / C.Peek(C.PaddedString(2, "utf8")), "b" / C.Byte), [b"\xff\xfe", b"ab"], []),
         ("peek-short-region", C.Struct("p" / C.Peek(C.Struct("a" / C.Byte, "b" / C.Prefixed(C.Byte, C.Const(b"\x01")))), "t" / C.Byte), [b"\x00\x02\x01", b"\x00\x01\x01"], []),
         ("peek-short-fixedsized", C.Struct("p" / C.Peek(C.FixedSized(4, C.GreedyBytes)), "t" / C.Byte), [b"\x01\x02", b"\x01\x02\x03\x04"], []),
+        # many members / labels / cases / elements and deep nesting: generated code at the sizes where code generators hit limits
+        ("many-members", C.Struct(*[("m%d" % i) / (C.Byte if i % 3 else C.Int16ub) for i in range(300)]), [bytes(range(256)) * 2, bytes(400)], [{("m%d" % i): i % 200 for i in range(300)}]),
+        ("many-sequence", C.Sequence(*[C.Byte for i in range(300)]), [bytes(range(256)) + bytes(60)], [list(range(256)) + [0] * 44]),
+        ("many-labels", C.Struct("e" / C.Enum(C.Int16ub, **{("l%d" % i): i for i in range(300)}), "f" / C.FlagsEnum(C.Int64ub, **{("f%d" % i): 1 << i for i in range(64)})),
+         [b"\x01\x2b" + b"\x80\x00\x00\x00\x00\x00\x00\x01", b"\x02\x00" + bytes(8), b"\x00\x05" + b"\xff" * 8], [dict(e="l299", f=dict(f0=True, f63=True)), dict(e=512, f=0)]),
+        ("many-cases", C.Struct("k" / C.Int16ub, "v" / C.Switch(this.k, {i: (C.Byte if i % 2 else C.Int16ub) for i in range(300)}, default=C.Bytes(3))),
+         [b"\x01\x2b\x07\x08", b"\x00\x02\x07\x08", b"\x02\x00abc"], [dict(k=299, v=7), dict(k=298, v=258), dict(k=1000, v=b"xyz")]),
+        ("many-elements", C.Struct("n" / C.Int16ub, "a" / C.Array(this.n, C.Byte), "b" / C.Array(5000, C.Byte)), [b"\x01\x00" + bytes(range(256)) + bytes(5000)], []),
+        ("long-bytes", C.Struct("a" / C.Bytes(70000), "s" / C.PaddedString(4100, "ascii"), "t" / C.Byte), [bytes(70000) + b"ab" + bytes(4098) + b"\x07"], []),
+        ("deep-nesting", (lambda mk: mk(mk, 40))(lambda mk, d: C.Struct("v" / C.Byte, "in" / mk(mk, d - 1)) if d else C.Struct("v" / C.Byte)), [bytes(range(41)), bytes(30)], []),
+        ("deep-wrappers", C.Prefixed(C.Byte, C.FixedSized(6, C.Padded(5, C.Aligned(2, C.NullTerminated(C.Prefixed(C.Byte, C.Struct("a" / C.Byte, "r" / C.GreedyBytes))))))),
+         [b"\x06\x02\x07\x08\x00\x00\x00", b"\x06\x01\x07\x00\x00\x00\x00"], []),
         ("union", C.Union(0, "a" / C.Int16ub, "b" / C.Byte, "c" / C.Bytes(2)), [b"\x01\x02", b"\x01"], [dict(a=258), dict(b=1), dict(c=b"xy")]),
         ("union-none", C.Struct("u" / C.Union(None, "a" / C.Int16ub, "b" / C.Byte), "t" / C.Byte), [b"\x01\x02\x03"], [dict(u=dict(a=5), t=1)]),
         ("union-name", C.Struct("u" / C.Union("b", "a" / C.Int16ub, "b" / C.Byte), "t" / C.Byte), [b"\x01\x02\x03"], []),
@@ -459,7 +471,8 @@ def run_special(tier, r):
         dc, err = try_compile(d)
         if dc is None:
             r.extra["special-compile-refused"] += 1
-            if "NotImplemented" not in err and not (name.startswith("union-varsize") and err.startswith("SizeofError")):
+            # compile() refusing is allowed: NotImplementedError, or SizeofError ("sizeof is applied during compilation")
+            if "NotImplemented" not in err and not err.startswith("SizeofError"):
                 r.violation("C04/compile-raises/special/" + name, {"special": name, "op": "compile"}, "compile() raised %s" % err)
             continue
         for x in datas:
